@@ -5612,7 +5612,7 @@ class CodegenCtx:
 
     def _convert_literal_value(self, literal: LiteralIntegerExpr):
         if literal.result_type() == OutputStorageType.ENUM:
-            return f"{self.program_name.upper()}_{literal.model_ref.name.upper()}_{literal.get_literal_result().upper()}"
+            return f"{self.program_name.upper()}_{literal.model_ref.name.upper()}_{literal.get_literal_result()}"  # (as declared in the header)
         elif literal.result_type() == OutputStorageType.BOOL:
             return "true" if literal.get_literal_result() else "false"
         elif literal.result_type() == OutputStorageType.INT:
